@@ -170,7 +170,7 @@ int main(int argc, char **argv) {
         Inst X; if(!build(X, L)) { o.fail("C12/harness-build", "could not build the layout through the bank API"); return; }
         if(i % 1009 == 0) o.sample = layout_str(L) + " x " + std::to_string(HS.size()) + " histories, e.g. " + hist_str(HS[i % HS.size()]);
         for(auto &h : HS) { check_note(X, L, h, o); if(o.bad) return; }
-        o.nontrivial = true; };
+        o.units = HS.size(); o.nontrivial = true; };
       fams.push_back(F); }
     { en::Family F; F.name = "replaced_instrument"; F.count = 7 * 2 * 3; F.chunk = 4; F.budget_s = 30; F.describe = "an entry replaced through opn2_setInstrument (each of the 7 banks x 2 entries x {before any note, after playing the old one, while the old one sounds}) is the one played next";
       F.run = [](uint64_t i, en::CaseOut &o) { int b = (int)(i % 7), e = (int)((i / 7) % 2), when = (int)(i / 14); Layout L; L.present = 0x7F; L.blankA = 0; L.blankB = 0; Inst X; if(!build(X, L)) { o.fail("C12/harness-build", "build"); return; }
